@@ -63,7 +63,8 @@ def generate(wd, c, minops, num, depth, sd, tag):
         shutil.copy(os.path.join(SPEC, s), sub)
     open(os.path.join(sub, 'run.cfg'), 'w').write(cfg)
     rc, out = sh(['timeout', '300', 'tlc', '-workers', '1', '-metadir', os.path.join(sub, 'md'), '-config', 'run.cfg',
-                  '-simulate', 'file=%s,num=%d' % (os.path.join(sub, 'sim'), num), '-depth', str(depth), '-seed', str(sd), 'LifecycleGen.tla'], cwd=sub)
+                  '-simulate', 'file=%s,num=%d' % (os.path.join(sub, 'sim'), num), '-depth', str(depth), '-seed', str(sd), 'LifecycleGen.tla'], cwd=sub,
+                 env=dict(os.environ, JAVA_TOOL_OPTIONS='-Djava.io.tmpdir=' + sub))
     files = sorted(glob.glob(os.path.join(sub, 'sim_*')))
     if not files:
         raise Machinery('LifecycleGen produced no behaviours:\n' + out[-2000:])
@@ -76,6 +77,7 @@ def generate(wd, c, minops, num, depth, sd, tag):
         if key in seen:
             continue
         seen.add(key)
+        sc['srvdirect'] = (k % 2 == 1)       # half of the histories run against a direct-I/O server
         scheds.append(sc)
     shutil.rmtree(sub, ignore_errors=True)
     return scheds
